@@ -6,7 +6,9 @@ import preview
 from preview import Plan
 from vlib import Infra, write_ndjson
 
-KIND_OF_DEV = {"LostCancel": "lost-cancel", "LostKillAtExit": "survives-exit", "ExitBeforeKill": "survives-exit"}
+KIND_OF_DEV = {"LostCancel": "lost-cancel", "LostKillAtExit": "survives-exit", "ExitBeforeKill": "survives-exit",
+               "StaleAfterShow": "stale-after-show"}
+FINDING_OF_KIND = {"lost-cancel": "F6", "survives-exit": "F6", "stale-after-show": "F18"}
 
 
 # ------------------------------------------------------------------ stimuli
@@ -75,6 +77,10 @@ def directed_plans(sid0, reps):
         # LostCancel (older request taken between try-send and Set): two announcements back to back
         plans.append(Plan(sid, "PB", ["endless"], 400, [{"until": "pv.start", "n0": 0}] + [{"post": "up+refresh-preview"}] * 6,
                           observe=True, leave="sigterm", label="double-announce")); sid += 1
+        # StaleAfterShow: window hidden, then move away + show + move back within one iteration of the action loop
+        if r == 0:
+            plans.append(Plan(sid, "PB", ["instant"], 40, [{"until": "pv.display", "n0": 0}, {"post": "toggle-preview"}, {"sleep": 0.2},
+                                                           {"post": "up+toggle-preview+down"}], observe=True, leave="abort", label="show-and-move-back")); sid += 1
         # no deviation expected: leave while a never-ending command runs and its watcher is in the select
         plans.append(Plan(sid, "PC", ["ticking"], 40, [{"until": "pv.display", "n0": 0}], observe=True, leave=["sigterm", "accept", "abort"][r % 3],
                           label="exit-while-running")); sid += 1
@@ -128,14 +134,18 @@ def judge_sessions(ctx, results, label):
                     q = [e for e in s_evs if e["ev"] == "quiet"]
                     for kind in sorted({KIND_OF_DEV[d] for d in devs}):
                         mine = [d for d in devs if KIND_OF_DEV[d] == kind]
-                        what = "session %d (%s): explained only by deviation %s of FzfPreview (F6): " % (sid, plan.label, "+".join(mine))
+                        what = "session %d (%s): explained only by deviation %s of FzfPreview (%s): " % (
+                            sid, plan.label, "+".join(mine), FINDING_OF_KIND[kind])
                         if kind == "survives-exit":
                             what += "preview process group %s still alive after fzf exited (%s)" % (s_evs[-1]["survivors"], s_evs[-1]["how"])
+                        elif kind == "stale-after-show":
+                            what += ("at quiescence the cursor is on item %s but the window shows %s: the request announced by toggle-preview "
+                                     "was served and the render loop announced nothing after it" % (q[-1]["cur"], q[-1]["pane"]) if q else "stale preview")
                         else:
                             what += ("at quiescence the cursor is on item %s (query %r, selection %s), the window shows %s, the never-ending "
                                      "command of an older request still runs and the request for the current state was never taken" % (
                                          q[-1]["cur"], q[-1]["q"], q[-1]["sel"], q[-1]["pane"]) if q else "stale preview")
-                        ctx.violation(what, {"plan": plan.to_json(), "events": s_evs, "deviations": devs, "kf": {"finding": "F6", "kind": kind}})
+                        ctx.violation(what, {"plan": plan.to_json(), "events": s_evs, "deviations": devs, "kf": {"finding": FINDING_OF_KIND[kind], "kind": kind}})
             elif rejected is None:
                 rejected = (a, b, sid)
         if rejected is None:
@@ -185,8 +195,8 @@ def run(ctx):
     # (2) J: recorded sessions of the real binary
     fzf = ctx.build_fzf()
     rng = ctx.rng
-    plans = directed_plans(1000, ctx.pick(1, 4))
-    plans += [random_plan(rng, sid) for sid in range(ctx.pick(14, 150))]
+    plans = directed_plans(1000, ctx.pick(2, 8))
+    plans += [random_plan(rng, sid) for sid in range(ctx.pick(36, 300))]
     for p in plans:                      # template tags -> commands (the driver knows the commands it builds)
         for st in p.steps:
             if "post" in st and st["post"].startswith("change-preview:"):
